@@ -106,6 +106,18 @@ def _run(ctx):
             raw_items = _c17.raw_scan_items(ctx, root_fn)
             tpl = all(re.match(r"^human\(mload\(%s\)\[.*\]\.contract_addr\)$" % re.escape(N.PAIRS), t) or
                       any(t == "human(%s.1.contract_addr)" % it for it in raw_items) for t in tgt) and empty_funds
+        if tpl is None and kind.startswith(PX + "::") and empty_funds and root_fn.crate == "halo_factory":
+            # a control message from the factory to a pair that carries no funds and that the pair accepts from its factory only
+            # (C14's policy for that variant): it moves no balance
+            from . import c14 as _c14
+            var_ = kind[len(PX) + 2:]
+            try:
+                pol_ = _c14.POLICY.get(("pair", var_)) or _c14.infer_policy(ctx, "pair", var_)
+            except Exception:
+                pol_ = None
+            if pol_ == "factory-only":
+                r1.site("%s Execute(%s) -> a pair; no funds; accepted by the pair from its factory only" % (sp, kind.split("::", 1)[-1]))
+                continue
         if tpl is None:
             r1.fail("C07.R1:unknown-execute:%s:%s" % (root_fn.path, kind), fn.path, sp, "Wasm::Execute with payload %s in %s matches no allowed template" % (kind[:120], root_fn.path))
         elif not tpl:
@@ -299,3 +311,6 @@ def run(ctx):
     from . import c05
     r7 = ctx.inst("C07.R7", "the only mint to an account other than the provider's receiver is the one-off reserved unit, minted to the LP token's own address exactly when the supply is zero (shared with C05.R6, C05.R7)", floor=4)
     compose.pull(ctx, r7, c05, {"C05.R6", "C05.R7"}, "C07.R7")
+    from . import c04
+    r8 = ctx.inst("C07.R8", "a withdrawal burns exactly the amount the holder handed in — no other LP held by the pair (shared with C04.R2)", floor=1)
+    compose.pull(ctx, r8, c04, {"C04.R2"}, "C07.R8", key_rx=r":(burn|Burn|anchor|floor)")
